@@ -22,7 +22,7 @@ def features(sql, dialect):
     f = {"mixed_comma_join_names": set(), "select_subquery_tables": set(), "lateral_view_aliases": set(),
          "rename_old": set(), "rename_new": set(), "having_subquery_tables": set(), "parsed": False,
          "stmt_types": [], "same_alias_subqueries": set(), "case_subquery": False, "n_rename_pairs": 0,
-         "case_subquery_aliases": set(), "subquery_aliases": set(), "select_has_subquery": False}
+         "case_subquery_aliases": set(), "subquery_aliases": set(), "select_has_subquery": False, "same_text_subqueries": False}
     try:
         tree = Linter(config=FluffConfig(overrides={"dialect": d})).parse_string(sql).tree
     except Exception:
@@ -93,6 +93,16 @@ def features(sql, dialect):
         ids = [s for s in cte.segments if s.type in ("identifier", "naked_identifier", "quoted_identifier")]
         if ids:
             aliases.append(_esc(ids[0].raw))
+    # sub-queries with identical text (the tool's SubQuery equality is textual)
+    texts = []
+    for br in tree.recursive_crawl("bracketed"):
+        inner = [x for x in br.segments if x.type in ("select_statement", "set_expression", "with_compound_statement")]
+        ex = [x for x in br.segments if x.type == "expression"]
+        if not inner and ex:
+            inner = [y for x in ex for y in x.segments if y.type == "select_statement"]
+        if inner:
+            texts.append(br.raw)
+    f["same_text_subqueries"] = any(texts.count(t) > 1 for t in texts)
     f["same_alias_subqueries"] = {a for a in aliases if aliases.count(a) > 1}
     f["subquery_aliases"] = set(aliases)
     return _freeze(f)
